@@ -675,7 +675,15 @@ pub fn engine_big32(a: &Args) {
     };
     for case in first_case..first_case + cases {
         let mut cr = Rng::new(mix(seed, 0xB16 + case));
-        let kind = (case + seed) % 7;
+        // `--kinds 4,6` restricts the starting states (the release-profile shard dwells on the shared
+        // length-on-heap states, where the crate's debug assertions would otherwise intervene)
+        let kind = match a.get("kinds") {
+            Some(list) => {
+                let ks: Vec<u64> = list.split(',').filter_map(|x| x.parse().ok()).collect();
+                if ks.is_empty() { (case + seed) % 7 } else { ks[((case + seed) % ks.len() as u64) as usize] % 7 }
+            }
+            None => (case + seed) % 7,
+        };
         e.case = format!("case={case} kind={kind}");
         if a.flag("announce") {
             emit(&J::new().s("t", "hist").s("engine", "big32").s("case", &e.case).render());
